@@ -108,6 +108,8 @@ $(B)/lib/SRC_sp_ienv.o: $(SLU_SRC)/SRC/sp_ienv.c Makefile | $(B)/lib build/gen/s
 	@$(CC) $(COMMON) $(VFLAGS) -Dsp_ienv=slu_default_sp_ienv -MMD -MP -c $< -o $@
 $(B)/lib/SRC_memory.o: $(SLU_SRC)/SRC/memory.c $(H)/vf_hooks.h Makefile | $(B)/lib build/gen/superlu_config.h
 	@$(CC) $(COMMON) $(VFLAGS) -Duser_bcopy=slu_user_bcopy -MMD -MP -c $< -o $@
+$(B)/lib/SRC_input_error.o: $(SLU_SRC)/SRC/input_error.c $(H)/vf_hooks.h Makefile | $(B)/lib build/gen/superlu_config.h
+	@$(CC) $(COMMON) $(VFLAGS) -Dinput_error=slu_input_error -MMD -MP -c $< -o $@
 $(B)/lib/SRC_%.o: $(SLU_SRC)/SRC/%.c $(H)/vf_hooks.h | $(B)/lib build/gen/superlu_config.h
 	@$(CC) $(COMMON) $(VFLAGS) -MMD -MP -c $< -o $@
 $(B)/lib/CBLAS_%.o: $(SLU_SRC)/CBLAS/%.c $(H)/vf_hooks.h | $(B)/lib build/gen/superlu_config.h
